@@ -240,7 +240,23 @@ impl<'e> EventLoop<'e> {
                 }
             }
             if let Some(suspender) = crate::scheduler::SchedulableSuspender::current() {
+                #[cfg(feature = "verif-hooks")]
+                if let Some(co) = SchedulableCoroutine::current() {
+                    crate::verif::point("wait_just:parking", co.id(), 0);
+                }
                 suspender.until(timestamp);
+                #[cfg(feature = "verif-hooks")]
+                if let Some(co) = SchedulableCoroutine::current() {
+                    crate::verif::point(
+                        "wait_just:resumed",
+                        co.id(),
+                        match co.state() {
+                            CoroutineState::Syscall((), _, SyscallState::Callback) => 1,
+                            CoroutineState::Syscall((), _, SyscallState::Timeout) => 2,
+                            _ => 0,
+                        },
+                    );
+                }
                 //回来的时候等待的时间已经到了
                 left_time = Some(Duration::ZERO);
             }
@@ -349,8 +365,12 @@ impl<'e> EventLoop<'e> {
 
     unsafe fn resume(&self, token: u64) {
         if COROUTINE_TOKENS.remove(&token).is_none() {
+            #[cfg(feature = "verif-hooks")]
+            crate::verif::point("event_loop:resume", token, 0);
             return;
         }
+        #[cfg(feature = "verif-hooks")]
+        crate::verif::point("event_loop:resume", token, 1);
         self.try_resume(token);
     }
 
